@@ -92,6 +92,15 @@ pub fn gen_world(seed: u64, idx: u64, s: &dyn SuiteOps) -> World {
         for _ in 0..6 {
             b.push(Op::ServerFinish { st: Ref::mem(st), fin: Ref::lit(Kind::CredFin, g.bytes(nh)) });
         }
+        // finalizations anybody can compute without a secret: MACs and hashes over constants
+        let h = oprf_hash(s.oprf());
+        let consts: [Vec<u8>; 3] = [vec![0u8; nh], vec![0xFFu8; nh], vec![]];
+        for k in &consts {
+            for m in &consts {
+                b.push(Op::ServerFinish { st: Ref::mem(st), fin: Ref::lit(Kind::CredFin, h.hmac(k, &[m])) });
+            }
+            b.push(Op::ServerFinish { st: Ref::mem(st), fin: Ref::lit(Kind::CredFin, h.hash(&[k])) });
+        }
     }
     // a third of the worlds run on a generator whose try_fill_bytes reports errors
     if idx % 3 == 2 {
@@ -231,7 +240,7 @@ pub fn judge(w: &World, r: &RunResult) -> Vec<Violation> {
 
 pub fn run(ctx: &Ctx) -> Report {
     let mut rep = Report::new(
-        "per world: one registration, 2 real logins and 4 fake attempts (unregistered id twice, registered id without record, again) interleaved; each fake request is also answered with the real record and once more without. Checked: equal length + decodes; evaluation element equal for equal (setup, request, credential id) with or without record; masking nonce / masked response / server nonce / server ephemeral key / MAC never repeat across the run; fake response must not unmask to server_pk‖0 under any key visible outside that call (zero, 0xFF, real masking keys, any Nh-byte draw of another call); client gets InvalidLoginError; zero / 0xFF / random / real finalizations never complete a fake server state. What is decidable is non-repetition and tape-dependence, not unpredictability as such",
+        "per world: one registration, 2 real logins and 4 fake attempts (unregistered id twice, registered id without record, again) interleaved; each fake request is also answered with the real record and once more without. Checked: equal length + decodes; evaluation element equal for equal (setup, request, credential id) with or without record; masking nonce / masked response / server nonce / server ephemeral key / MAC never repeat across the run; fake response must not unmask to server_pk‖0 under any key visible outside that call (zero, 0xFF, real masking keys, any Nh-byte draw of another call); client gets InvalidLoginError; zero / 0xFF / random / real finalizations and MACs/hashes over constants (computable without any secret) never complete a fake server state. What is decidable is non-repetition and tape-dependence, not unpredictability as such",
     );
     let mut suites: Vec<&'static dyn SuiteOps> = SIM_SUITES.to_vec();
     suites.extend(ID_SUITES.iter().step_by(ctx.pick(4, 1)));
